@@ -74,14 +74,44 @@ theorem propsFold_recvs (f : C → Nat → Nat → C) (hf : ∀ c i v, recvs (f 
 
 /-! ## sending side -/
 
-@[simp] theorem psV3Connack_handled (c : C) (p : Pkt) : (psV3Connack c p).s.handled = c.s.handled := by
-  frame_tac psV3Connack
+/-- a CONNACK(success) accepted for sending with session present = false starts a new session:
+    `clearStoreRelated` empties `handled` (fix 10ee029) -/
+theorem psV3Connack_handled (c : C) (p : Pkt) :
+    (psV3Connack c p).s.handled =
+      if c.s.status = .connecting ∧ p.rc = some 0 ∧ p.sp = false then [] else c.s.handled := by
+  simp only [psV3Connack]
+  by_cases h1 : c.s.status = .connecting <;> by_cases h2 : p.rc = some 0 <;> cases h3 : p.sp <;>
+    simp [h1, h2, h3, clearStoreRelated]
 @[simp] theorem psV3Connack_recvs (c : C) (p : Pkt) : recvs (psV3Connack c p).ev = recvs c.ev := by
-  frame_tac psV3Connack
-@[simp] theorem psV5Connack_handled (c : C) (p : Pkt) : (psV5Connack c p).s.handled = c.s.handled := by
-  simp [psV5Connack, propsFold_handled, apply_ite C.s, apply_ite St.handled]
+  simp only [psV3Connack]
+  by_cases h1 : c.s.status = .connecting <;> by_cases h2 : p.rc = some 0 <;> cases h3 : p.sp <;>
+    simp [h1, h2, h3, clearStoreRelated]
+theorem psV5Connack_handled (c : C) (p : Pkt) :
+    (psV5Connack c p).s.handled =
+      if sizeOk c p ∧ c.s.status = .connecting ∧ p.rc = some 0 ∧ p.sp = false then [] else c.s.handled := by
+  simp only [psV5Connack]
+  cases h0 : sizeOk c p <;> by_cases h1 : c.s.status = .connecting <;> by_cases h2 : p.rc = some 0 <;>
+    cases h3 : p.sp <;>
+    simp [h0, h1, h2, h3, clearStoreRelated, propsFold_handled, apply_ite C.s, apply_ite St.handled]
 @[simp] theorem psV5Connack_recvs (c : C) (p : Pkt) : recvs (psV5Connack c p).ev = recvs c.ev := by
-  simp [psV5Connack, propsFold_recvs, apply_ite C.ev, apply_ite recvs]
+  simp only [psV5Connack]
+  cases h0 : sizeOk c p <;> by_cases h1 : c.s.status = .connecting <;> by_cases h2 : p.rc = some 0 <;>
+    cases h3 : p.sp <;>
+    simp [h0, h1, h2, h3, clearStoreRelated, propsFold_recvs, apply_ite C.ev, apply_ite recvs]
+
+/-- the CONNACK built for a refused CONNECT leaves `handled` alone -/
+@[simp] theorem psV3Connack_handled_errRc (c : C) (e : Nat) :
+    (psV3Connack c (mkV3Connack (v3ConnectErrRc e))).s.handled = c.s.handled := by
+  have : (mkV3Connack (v3ConnectErrRc e)).rc ≠ some 0 := by
+    simp only [mkV3Connack, v3ConnectErrRc]; repeat' split
+    all_goals simp
+  rw [psV3Connack_handled]; simp [this]
+@[simp] theorem psV5Connack_handled_errRc (c : C) (e : Nat) :
+    (psV5Connack c (mkV5Connack (v5ConnectErrRc e))).s.handled = c.s.handled := by
+  have : (mkV5Connack (v5ConnectErrRc e)).rc ≠ some 0 := by
+    simp only [mkV5Connack, v5ConnectErrRc]; repeat' split
+    all_goals simp
+  rw [psV5Connack_handled]; simp [this]
 
 theorem psV3Connect_handled (c : C) (p : Pkt) :
     (psV3Connect c p).s.handled = if c.s.status = .disconnected ∧ p.clean then [] else c.s.handled := by
@@ -133,7 +163,8 @@ theorem send_handled (c : C) (p : Pkt) :
     (send c p).s.handled = c.s.handled ∨
     ((send c p).s.handled = [] ∧ p.kind = .connect ∧ p.clean = true) ∨
     ((send c p).s.handled = del (p.pid.getD 0) c.s.handled ∧ p.kind = .pubrec ∧ p.ver ≠ 4 ∧
-      (∃ rc, p.rc = some rc ∧ rc ≥ 0x80) ∧ p ∈ sends (send c p).ev) := by
+      (∃ rc, p.rc = some rc ∧ rc ≥ 0x80) ∧ p ∈ sends (send c p).ev) ∨
+    ((send c p).s.handled = [] ∧ p.kind = .connack ∧ p.rc = some 0 ∧ p.sp = false) := by
   simp only [send]
   split
   · simp
@@ -141,11 +172,14 @@ theorem send_handled (c : C) (p : Pkt) :
     · simp
     · simp only [processSend]
       split
-      · cases hk : p.kind <;> simp [psV3Connect_handled]
-        by_cases h1 : c.s.status = .disconnected <;> cases h2 : p.clean <;> simp_all
+      · cases hk : p.kind <;> simp [psV3Connect_handled, psV3Connack_handled]
+        · by_cases h1 : c.s.status = .disconnected <;> cases h2 : p.clean <;> simp_all
+        · by_cases h1 : c.s.status = .connecting <;> by_cases h2 : p.rc = some 0 <;> cases h3 : p.sp <;> simp_all
       · rename_i hv
-        cases hk : p.kind <;> simp [psV5Connect_handled]
+        cases hk : p.kind <;> simp [psV5Connect_handled, psV5Connack_handled]
         · cases h0 : sizeOk c p <;> by_cases h1 : c.s.status = .disconnected <;> cases h2 : p.clean <;> simp_all
+        · cases h0 : sizeOk c p <;> by_cases h1 : c.s.status = .connecting <;> by_cases h2 : p.rc = some 0 <;>
+            cases h3 : p.sp <;> simp_all
         · by_cases hc : sizeOk c p ∧ c.s.status = .connected ∧ (∃ rc, p.rc = some rc ∧ rc ≥ 0x80)
           · right
             exact ⟨by rw [psV5Pubrec_handled_eq, if_pos hc], hv, hc.2.2, psV5Pubrec_sent c p hc.1 hc.2.1⟩
